@@ -181,10 +181,13 @@ CHECKS["C11"] = dict(
     rule=("part 'ext': the C01/C02/C03/C13 history generators (autocommit content-heavy incl. the empty key and lengths 0,1,2047-2049,4095-4097,6000,100 KiB through Set/SetReader/Create; transactional at all four levels; operations through ended/unknown transactions) "
           "executed through pkg/external.Open against internal/app serving on a loopback listener in the same process; after every step every actor's Get/GetReader of every key and GetKeys are compared with the SAME reference model the inline client is held to "
           "(values byte-exact, error class by errors.Is over the exported sentinels). non-trivial = the history used a transaction and some call returned an error. "
+          "part 'binkey': a direct differential run for keys that are not valid UTF-8 (1-3 keys, mostly invalid UTF-8, drawn from hostile constants and random bytes; 1-10 operations Set/SetReader/Create/Get/GetReader/Delete/GetKeys, optionally through one transaction): the same program on a fresh inline database and through the gRPC client against a fresh server, results compared call by call (error class, bytes, key list); non-trivial = a call named a non-UTF-8 key. The only excused difference is the listed known finding (the gRPC marshaller rejects such keys). "
           "part 'errors': error values built from every exported sentinel under random fmt.Errorf(%w) chains / errors.Join with foreign errors -> adapter Error -> gRPC status -> adapter ClientError; class(client(server(e))) must equal class(e), non-sentinel errors must become ErrUnknown."),
     assumptions=_E1_ASSUME[:2] + ["differential via the shared model: both clients are compared with the same reference model rather than with each other (the inline runs are C01-C03, C13)",
-                                  "known finding C13-late-write-accepted applies here too (writes through ended handles)"],
+                                  "known finding C13-late-write-accepted applies here too (writes through ended handles)",
+                                  "known finding C11-non-utf8-key: after the first excused call the two databases differ, so that case's comparison stops there"],
     parts=[P("ext", "seq", "TestC11", dict(checks=320, shards=16, timeout=900), dict(checks=20000, shards=16, timeout=3400)),
+           P("binkey", "seq", "TestC11BinKey", dict(checks=320, shards=16, timeout=900), dict(checks=8000, shards=16, timeout=3400)),
            P("errors", "unit", "TestC11Errors", dict(checks=60000, shards=16, timeout=600), dict(checks=1000000, shards=16, timeout=3000))],
 )
 
